@@ -716,7 +716,7 @@ fn large(c: &mut Case) {
 fn main() {
     runner::main(Spec {
         property: "C14",
-        rule: "one case = one data matrix (2<=n<=80 rows, 1<=p<=8 columns, n>p and n<=p, f64 or f32) drawn from seeded structured generators (correlated Gaussian mixtures, common-factor, conditioned designs, integers, factor+noise, clustered singular values, binary, Hadamard designs with exactly repeated eigenvalues; column scales 1e-2..1e3, column means up to 1e6 spreads, overall rescaling 1e-12..1e12; exactly rank-deficient: duplicated columns, integer linear combinations, constant columns, identical rows) or enumerated (all {-1,0,1} matrices of tiny shapes); every k in 1..=p (PCA) / 1..p (truncated SVD) is fitted and checked; a case is non-trivial when the total variance (PCA) / ‖X‖_F (truncated SVD, p>=2) is positive and the reference eigen/singular values certified themselves; distinct = hash of (operation, width, entries of X)",
+        rule: "one case = one data matrix (2<=n<=80 rows, 1<=p<=8 columns, n>p and n<=p, f64 or f32) drawn from seeded structured generators (correlated Gaussian mixtures, common-factor, conditioned designs, integers, factor+noise, clustered singular values, binary, Hadamard designs with exactly repeated eigenvalues; column scales 1e-2..1e3, column means up to 1e6 spreads, overall rescaling 1e-12..1e12; exactly rank-deficient: duplicated columns, integer linear combinations, constant columns, identical rows) or enumerated (all {-1,0,1} matrices of tiny shapes); every k in 1..=p (PCA) / 1..p (truncated SVD) is fitted and checked; a case is non-trivial when the total variance (PCA) / ‖X‖_F (truncated SVD, p>=2) is positive and the reference eigen/singular values certified themselves; distinct = hash of (operation, width, entries of X); large: PCA (both modes) and truncated SVD on 1025..2600 rows; parameter objects are passed to fit as clones in every second case",
         assumptions: vec![
             "DenseMatrix backend only (backend equivalence is C20)",
             "f32 inputs: column means <= ~30 spreads, column scales 1e-2..1e2, overall scale 1e-6..1e6",
@@ -733,7 +733,7 @@ fn main() {
             Family::new("pca_rankdef", 4000, 60000, pca_rankdef),
             Family::new("tsvd", 3000, 50000, tsvd),
             Family::new("tsvd_rankdef", 2000, 30000, tsvd_rankdef),
-            Family::new("large", 600, 12000, large),
+            Family::new("large", 600, 4000, large),
             Family::new("tiny_grid", GRID_QUICK_N, GRID_THOROUGH_N, tiny_grid).exhaustive(true, true),
         ],
         min_nontrivial: 3000,
